@@ -14,7 +14,12 @@ MANIFEST = dict(
          "transaction per HTLC output, in output order), C04_entry_points_agree (on every content phase 2 signs, phase 1 "
          "accepts canon_tx with canon_ws and returns the same signature; needs the parse-after-build round trip of every "
          "script template, proved once for a template interpreter), C04_no_foreign_tx (under injectivity of the digest and "
-         "of signature verification no other transaction verifies). Tie: per run the model's bytes are computed by "
+         "of signature verification no other transaction verifies), C04_validated_contents_bounded (the expiry premise of "
+         "the round trip follows from C05's validator theorem), C04_hash_lengths (the executable SHA-256 / RIPEMD-160 "
+         "meet the length premises). The model describes the code with setup_channel refusing a funding output index "
+         "above 65535 (notes/fixes/C04-funding-vout-16-bits.patch; C04_old_vout_truncation_refuted keeps the witness "
+         "against `vout as u16`); the deprecated non-zero-fee Anchors type is outside the agreement theorem "
+         "(C04_anchors_type_refuted). Tie: per run the model's bytes are computed by "
          "vm_compute for generated setups x contents (4 commitment types, both funder directions, delays, outpoints, HTLC "
          "multisets with duplicates, zero outputs, dust edges) with keys and obscuring factor derived independently in the "
          "harness (BOLT-3 formulas on libsecp256k1 / SHA-256); those bytes are fed to the real raw entry point, every "
@@ -33,7 +38,8 @@ MANIFEST = dict(
 
 PINNED = ["C04_phase1_canonical", "C04_phase2_sig", "C04_decode_roundtrip", "C04_canon_order_independent",
           "C04_entry_points_agree", "C04_hash_lengths", "C04_entry_points_agree_sha256", "C04_no_foreign_tx",
-          "C04_nonvacuous", "C04_anchors_type_refuted", "C04_old_vout_truncation_refuted"]
+          "C04_nonvacuous", "C04_anchors_type_refuted", "C04_old_vout_truncation_refuted",
+          "C04_validated_contents_bounded"]
 
 IMPORTS = "From Coq Require Import String List NArith.\nFrom VLS Require Import Base.Codec Model.Commitment Model.CommitmentCheck.\nImport List.ListNotations.\nOpen Scope N_scope.\n"
 
